@@ -899,6 +899,40 @@ theorem step_via (s : St) (o : Nat) (addr : Text) (port : Nat) : StepOk s (step 
       · exact Or.inr ⟨Le.fire_fresh s _ rfl _, rfl⟩
       · exact Or.inl ⟨Le.refl s, rfl⟩
 
+theorem rekey_count (key : Text × Nat) (g : Nat) (ts : List ((Text × Nat) × (Nat × Nat))) (d : Nat)
+    (ts' : List ((Text × Nat) × (Nat × Nat))) (h : rekey key g ts = some (d, ts')) (x : Nat) :
+    (ts'.map (·.2.2)).count x + [d].count x = (ts.map (·.2.2)).count x + [g].count x := by
+  induction ts generalizing ts' with
+  | nil => simp [rekey] at h
+  | cons e r ih =>
+    simp only [rekey] at h
+    split at h
+    · simp only [Option.some.injEq, Prod.mk.injEq] at h
+      obtain ⟨h1, h2⟩ := h
+      subst h1; subst h2
+      simp only [List.map_cons, List.count_cons, List.count_nil]
+      omega
+    · cases hr : rekey key g r with
+      | none => simp [hr] at h
+      | some q =>
+        simp only [hr, Option.map_some, Option.some.injEq, Prod.mk.injEq] at h
+        obtain ⟨h1, h2⟩ := h
+        subst h2
+        have := ih q.2 (by rw [hr, ← h1])
+        simp only [List.map_cons, List.count_cons] at this ⊢
+        omega
+
+theorem step_viaLost (s : St) (addr : Text) (port : Nat) : StepOk s (step s (.viaLost addr port)).1 (step s (.viaLost addr port)).2 := by
+  simp only [step]
+  split
+  · exact Or.inl ⟨Le.refl s, rfl⟩
+  · rename_i d ts h
+    refine Or.inr ⟨?_, rfl⟩
+    intro x
+    have := rekey_count _ _ _ _ _ h x
+    simp only [pend, List.count_append, fired, List.filterMap_cons, List.filterMap_nil] at this ⊢
+    omega
+
 theorem step_ok (s : St) (i : In) : StepOk s (step s i).1 (step s i).2 := by
   cases i with
   | circ args quit => exact Or.inl ⟨circEvent_le s args quit, nextD_circEvent s args quit⟩
@@ -935,6 +969,7 @@ theorem step_ok (s : St) (i : In) : StepOk s (step s i).1 (step s i).2 := by
   | setAttacher a => exact step_setAttacher s a
   | answer tok a => exact step_answer s tok a
   | via o addr port => exact step_via s o addr port
+  | viaLost addr port => exact step_viaLost s addr port
 
 /-! ### the invariant and the run theorem -/
 
